@@ -226,14 +226,14 @@ def gen_driver(facts, cfg, include_source=True):
         w('}')
         w(f'static void {fname}(Shell& sh_, Comp& comp_, dzn::pump& pump_, const std::string& client_, const std::string& expect_tag) {{')
         w('  H.reset(); std::string res; unsigned long posted0 = pump_.posted; size_t queued0 = pump_.q.size();')
-        w(f'  {fname}_call(sh_, comp_, client_, res);')
+        w(f'  try {{ {fname}_call(sh_, comp_, client_, res); }} catch (const std::bad_function_call&) {{ res += "UNROUTED-WRONG(empty std::function);"; }}')
         via = pc.via_pump(ev)
         deferred = via and pc.p.direction == 'requires'
         subj = pc.tag(ev)
         if deferred:
             w('  bool deferred_ok = H.log.empty() && pump_.q.size() == queued0 + 1 && pump_.posted == posted0 + 1;')
             w(f'  verif::emit("C02", "mts-requires-out-deferred", "{subj}", deferred_ok, "hits-before-drain=" + H.joined());')
-            w('  verif::scrub_stack(); pump_.drain();')
+            w('  verif::scrub_stack(); try { pump_.drain(); } catch (const std::bad_function_call&) { res += "UNROUTED-WRONG(empty std::function behind the dispatcher);"; pump_.q.clear(); pump_.in_dispatch = false; }')
             w(f'  verif::emit("C02", "mts-requires-out-in-dispatch", "{subj}", H.in_dispatch, "");')
         elif via:
             w(f'  verif::emit("C02", "mts-provides-in-dispatched", "{subj}", H.in_dispatch && pump_.posted == posted0 + 1 && pump_.q.empty(), '
